@@ -19,7 +19,7 @@ DECIDES = ("Decided: exactly one type argument and one map entry per type parame
            "AST over all abstract inputs; that the 'parameters after the current one' slice uses the index of the "
            "enumerate loop that binds the parameter; the single projection construction site; boxing/filtering of the "
            "candidate pool and every call site's only_regular flag; that bounded parameters draw from "
-           "find_subtypes(substituted bound) and pre-assignments are kept; the PECS tables.")
+           "find_subtypes(substituted bound) and pre-assignments are kept; the PECS tables. Also: a type-argument list handed to .new() is built in declaration order, never from a map's values; a parameter that bounds an assigned parameter takes over that assignment whenever it has none of its own.")
 NOT_DECIDED = ("that the chosen argument really is a subtype of the substituted bound (relies on the values computed "
                "by find_subtypes / is_subtype, C09/C06).")
 
